@@ -1,4 +1,4 @@
-P('C10', shards=16, fuzz=[('FuzzArgv', 45)],
+P('C10', shards=16, fuzz=[('FuzzArgv', 60)],
   technique='property-based differential testing against a reference argv reader written from the documented grammar (rapid token-grammar generator) + native fuzzing of NUL-separated vectors',
   text='Argument vectors generated from a token grammar (all four flag spellings, bool flags, repeats, flag-looking values, --, near-misses such as - --- -= -x= --=v, unknown names, missing values, '
        'unparsable values per type, -config with existing/missing/invalid files, arbitrary byte tokens) are parsed by a fresh FlagSet over two struct shapes; Parse must never panic, must fail exactly when '
